@@ -7,7 +7,7 @@ import sys
 import common, enc, gen, sweep, impl, seq
 import segno
 
-TOP = ['theories/Props/C14.v', 'theories/Tie/TieTables.v', 'theories/Tie/TieMaskArg.v', 'theories/Tie/TieVersion.v', 'theories/Tie/TieNorm.v', 'theories/Tie/TieEncodeTop.v', 'theories/Tie/TieColor.v', 'theories/Tie/TieWrColorFull.v']
+TOP = ['theories/Props/C14.v', 'theories/Tie/TieTables.v', 'theories/Tie/TieMaskArg.v', 'theories/Tie/TieVersion.v', 'theories/Tie/TieNorm.v', 'theories/Tie/TieEncodeTop.v', 'theories/Tie/TieColor.v', 'theories/Tie/TieWrColorFull.v', 'theories/Tie/TieApiQr.v', 'theories/Tie/TieApiMake.v']
 RULE = ('product of the documented argument domains for make / make_qr / make_micro / make_sequence including boundary and malformed values '
         '(empty content, odd-length kanji, version "m5", mask 8, error "x", numeric strings with sign/space/underscore, control characters, '
         'Unicode spaces and decimal digits, the 4300-digit limit of int(); bools, case variants including the non-ASCII code points whose '
@@ -394,6 +394,11 @@ def run(ctx):
     # ---- 5. command line: exit status and stderr
     cli_cases = [(['-o', '{out}.png', 'HELLO'], 0), (['--version=41', 'x'], 1), (['--error=x', 'x'], 2), (['--pattern=9', 'x'], 1),
                  (['--micro', '--error=H', '1'], 1), (['--version=M1', 'A'], 1), (['--version=1', 'A' * 100], 1)]
+    # serialiser refusals must not depend on the letter case of the output extension
+    for ext in ('png', 'PNG', 'Png', 'svg', 'SVG', 'Svg', 'pdf', 'PDF', 'eps', 'EPS', 'SVGZ', 'svgz'):
+        # (raised while SAVING: the clause about "no traceback" covers refusals while creating the symbol only, so any non-zero status is accepted)
+        cli_cases += [(['--scale=0', '-o', '{out}.' + ext, 'HELLO'], 'refuse'), (['--border=-1', '-o', '{out}.' + ext, 'HELLO'], 'refuse'),
+                      (['--dark=#12', '-o', '{out}.' + ext, 'HELLO'], 'refuse'), (['--scale=2', '--border=1', '-o', '{out}.' + ext, 'HELLO'], 0)]
     import tempfile, os
     with tempfile.TemporaryDirectory() as d:
         for i, (argv, want) in enumerate(cli_cases):
@@ -407,6 +412,8 @@ def run(ctx):
                 failures.append({'input': {'call': 'cli', 'argv': argv}, 'observed': 'exit 0 without output file', 'expected': 'output written'})
             if want == 0 and p.returncode != 0:
                 failures.append({'input': {'call': 'cli', 'argv': argv}, 'observed': 'exit %d %s' % (p.returncode, p.stderr[-100:]), 'expected': 'exit 0'})
+            if want == 'refuse' and p.returncode == 0:
+                failures.append({'input': {'call': 'cli', 'argv': argv}, 'observed': 'exit 0', 'expected': 'non-zero exit status: the serialiser refuses this option value'})
             if want == 1 and (p.returncode != 1 or 'Traceback' in p.stderr or not p.stderr.strip()):
                 failures.append({'input': {'call': 'cli', 'argv': argv}, 'observed': 'exit %d, stderr %r' % (p.returncode, p.stderr[-160:]),
                                  'expected': 'exit status 1 with the library message on stderr and no traceback'})
